@@ -102,7 +102,7 @@ def run(R, env):
                 fqn = by_rust.get(rp)
                 R.ob("C19.R2", "miniwasm:%s:struct-known" % kind, fqn is not None, "struct %s is not a generated message of the bindings" % adt, loc=b.loc(bi), fn=fk)
                 from engine.analysis import aggregates_deep, resolve_terms, ok_payload
-                stargates = [(sbi_, ssi_, st_) for c_, path_, sbi_, ssi_, st_ in aggregates_deep(prog, c, lambda a_, v: a_.endswith("CosmosMsg") and v == "Stargate", 2)]
+                stargates = [(c_.body.loc(sbi_, ssi_), ssi_, st_) for c_, path_, sbi_, ssi_, st_ in aggregates_deep(prog, c, lambda a_, v: a_.endswith("CosmosMsg") and v == "Stargate", 2)]
                 R.ob("C19.R2", "miniwasm:%s:one-stargate" % kind, len(stargates) == 1, "found %d Stargate constructions" % len(stargates), fn=fk)
                 for sbi, ssi, st in stargates:
                     url, val = agg_field(st, "type_url"), agg_field(st, "value")
@@ -112,9 +112,9 @@ def run(R, env):
                         regs = [i_ for i_ in prog.impls if (i_.get("trait") or "").endswith("TypeUrl") and i_.get("self_adt") == adt]
                         if len(regs) == 1 and "str" in (regs[0]["assoc_consts"].get("TYPE_URL") or {}):
                             url = ("const", "str", regs[0]["assoc_consts"]["TYPE_URL"]["str"])
-                    R.ob("C19.R2", "miniwasm:%s:type_url" % kind, url is not None and fqn is not None and const_str(url) == "/" + fqn, "type_url %s, expected \"/%s\" (the protobuf name of %s)" % (fmt(url or ("none",)), fqn, adt.split("::")[-1]), loc=b.loc(sbi, ssi), fn=fk)
+                    R.ob("C19.R2", "miniwasm:%s:type_url" % kind, url is not None and fqn is not None and const_str(url) == "/" + fqn, "type_url %s, expected \"/%s\" (the protobuf name of %s)" % (fmt(url or ("none",)), fqn, adt.split("::")[-1]), loc=sbi, fn=fk)
                     carries = val is not None and any(s_[0] == "call" and s_[1].endswith("MessageExt::to_bytes") and norm(s_[2][0]) == norm(t) for s_ in subterms(val))
-                    R.ob("C19.R2", "miniwasm:%s:value-is-to_bytes-of-that-message" % kind, carries, "Stargate.value is not to_bytes() of the %s built in this function" % adt.split("::")[-1], loc=b.loc(sbi, ssi), fn=fk)
+                    R.ob("C19.R2", "miniwasm:%s:value-is-to_bytes-of-that-message" % kind, carries, "Stargate.value is not to_bytes() of the %s built in this function" % adt.split("::")[-1], loc=sbi, fn=fk)
                 okv = ok_payload(resolve_terms(prog, c.T.return_term(), 2))
                 good = all(a_[0] == "agg" and a_[2] == "Stargate" for a_ in (okv[1] if okv[0] == "phi" else (okv,)))
                 R.ob("C19.R2", "miniwasm:%s:returns-the-stargate" % kind, good, "the function's Ok value is not the Stargate message", fn=fk)
